@@ -12,7 +12,8 @@
 //     N<p><q>   NXDOMAIN      WI<p><q> other id      WQ<p><q> q's id, other question      MF<p><q> unparsable, q's id
 //     TR<q>     UDP response with TC=1      TF<q>  the same, then the server waits for the query to arrive over TCP
 //     WS<q>     q's id + question from the other server's socket
-//     W<q>      wait (15 s limit) for q's completion -> Wait{q,got}      w<q>  wait at most 400 ms, not logged
+//     W<q>      wait (15 s limit) for q's completion -> Wait{q,got,lim}  w<q>  wait at most 400 ms, not logged
+//     m<q>      wait 2 s -> Wait{..,lim:2}      Tf<q>  TF with a 2 s limit   (after a response the as-is model says is dropped)
 //     TO<q>     wait for q's completion by timeout -> Wait{q,got}
 //     F         fence: a private query per open channel, answered in order, so that everything sent before was processed
 //     ST        stop()
@@ -39,9 +40,10 @@ static double nowS()
 }
 static void sleepMs(int ms) { usleep(ms * 1000); }
 
-static const int kShortMs = 600;   // tmo=S
+static const int kShortMs = 1500;  // tmo=S
 static const int kLongMs = 30000;  // tmo=L: never fires within a case
-static const int kStaggerMs = 350; // tmo=S: distance between the timers of two queries pending at the same time
+static const int kStaggerMs = 300; // tmo=S: distance kept between two armings of timeout timers (query, TCP fallback), so that
+                                   // the timers fire in the order of arming with room for the script's steps in between
 static const char *kNames[3] = {"fence.x.test", "q1.x.test", "q2.x.test"};
 
 struct Server
@@ -80,7 +82,7 @@ struct Rig
   int retries = 0, nsrv = 1, tmoMs = kLongMs;
   int tag = 0;
   bool stopped = false;
-  double lastQuery = 0;
+  double lastQuery = 0, lastArm = 0;
   std::vector<uint16_t> fenceIds;
 
   bool openServers()
@@ -287,12 +289,14 @@ struct Rig
     {
       pump(q, tcp, 20, false);
       if ((tcp ? qi[q].nT : qi[q].nU) > before) return true;
+      // the query completed meanwhile (its timer fired): the transmission is no longer due; look once more, then give up
+      if (sh->ndone[q].load() > 0 && end > nowS() + 0.3) end = nowS() + 0.3;
     }
     return false;
   }
-  void expectQuery(int q, bool tcp)
+  void expectQuery(int q, bool tcp, double limitS = 15.0)
   {
-    if (!awaitQuery(q, tcp, 15.0))
+    if (!awaitQuery(q, tcp, limitS))
       tr->add(vf::Ev("SrvRecv").i("q", q).str("proto", tcp ? "tcp" : "udp").b("ok", false).i("n", tcp ? qi[q].nT : qi[q].nU).i("srv", -1));
   }
 
@@ -394,20 +398,23 @@ struct Rig
         kind = "other";
       }
     }
-    bool early = kind == "timeout" && (nowS() - t0) * 1000.0 < (double)tmoMs;
+    bool early = kind == "timeout" && (nowS() - t0) * 1000.0 < (double)tmoMs - 1.0; // t0 precedes the arming of the timer
     if (q != 0) tr->add(vf::Ev("Done").i("q", q).str("kind", kind).i("tag", tg).i("early", early ? 1 : 0));
     sh->ndone[q].fetch_add(1);
   }
 
+  // tmo=S: keep the armings of timeout timers apart, so that "q1 timed out, q2 still pending" is a state
+  void stagger(int q)
+  {
+    if (q == 0 || tmoMs != kShortMs || stopped) return;
+    bool otherPending = false;
+    for (int k = 1; k < 3; ++k) otherPending = otherPending || (k != q && qi[k].t0 > 0 && sh->ndone[k].load() == 0);
+    if (otherPending && (nowS() - lastArm) * 1000 < kStaggerMs) sleepMs(kStaggerMs - (int)((nowS() - lastArm) * 1000));
+    lastArm = nowS();
+  }
   void issue(int q, const std::string &server = "", uint16_t port = 0)
   {
-    // tmo=S: keep the timers of simultaneously pending queries apart, so that "q1 timed out, q2 still pending" is a state
-    if (q != 0 && tmoMs == kShortMs && !stopped)
-    {
-      bool otherPending = false;
-      for (int k = 1; k < 3; ++k) otherPending = otherPending || (k != q && qi[k].t0 > 0 && sh->ndone[k].load() == 0);
-      if (otherPending && (nowS() - lastQuery) * 1000 < kStaggerMs) sleepMs(kStaggerMs - (int)((nowS() - lastQuery) * 1000));
-    }
+    stagger(q);
     double t0 = nowS();
     qi[q].t0 = t0;
     if (q != 0)
@@ -465,7 +472,7 @@ struct Rig
     int nU = qi[0].nU, nT = qi[0].nT;
     issue(0, "127.0.0.1", srv[s].port);
     bool firstTcp = mode == "T";
-    double end = nowS() + 5.0;
+    double end = nowS() + 3.0;
     while (nowS() < end && (firstTcp ? qi[0].nT == nT : qi[0].nU == nU)) pump(0, firstTcp, 10, false);
     if (firstTcp ? qi[0].nT == nT : qi[0].nU == nU) return false;
     fenceIds.push_back(qi[0].id);
@@ -480,7 +487,7 @@ struct Rig
       sendTcp(s, m, false);
     else
       sendUdp(s, qi[0].from, m);
-    return waitDone(0, 5.0, base + 1);
+    return waitDone(0, 3.0, base + 1);
   }
   void fence()
   {
@@ -560,13 +567,22 @@ static std::string runOne(const std::string &line)
     else if (op == "QS")
       r.issue(q);
     else if (op == "W" || op == "TO")
-      r.tr->add(vf::Ev("Wait").i("q", q).b("got", r.waitDone(q, 15.0)));
+      r.tr->add(vf::Ev("Wait").i("q", q).b("got", r.waitDone(q, 15.0)).i("lim", 15));
+    else if (op == "m")
+      r.tr->add(vf::Ev("Wait").i("q", q).b("got", r.waitDone(q, 2.0)).i("lim", 2));
+    else if (op == "Tf")
+    {
+      r.respond("trunc", 'u', q);
+      r.expectQuery(q, true, 2.0);
+    }
     else if (op == "w")
       r.waitDone(q, 0.4);
     else if (op == "TR")
       r.respond("trunc", 'u', q);
     else if (op == "TF")
     {
+      r.stagger(q); // the fallback re-arms q's timer
+      r.lastQuery = nowS();
       r.respond("trunc", 'u', q);
       r.expectQuery(q, true);
     }
